@@ -119,6 +119,10 @@ impl SyntaxPattern {
                                     for (var, multi_match) in multi_matches_substitutions {
                                         substitutions.get_mut(&var).unwrap().1.push(multi_match.0);
                                     }
+                                } else {
+                                    // an item that does not fit the pattern under the ellipsis means
+                                    // that this rule does not match: it must not be dropped silently
+                                    return Ok(false);
                                 }
                                 if Self::match_datum_stream(
                                     pattern_index,
